@@ -132,6 +132,18 @@ def ensure_framework():
         log('framework built in %.1fs' % (time.time() - t0))
 
 
+class cargo_lock:
+    """the cargo target directory is shared by all workspaces: serialise build + copy of its artefacts"""
+    def __enter__(self):
+        os.makedirs(WORK, exist_ok=True)
+        self.f = open(os.path.join(WORK, '.cargo.lock'), 'w')
+        fcntl.flock(self.f, fcntl.LOCK_EX)
+
+    def __exit__(self, *a):
+        fcntl.flock(self.f, fcntl.LOCK_UN)
+        self.f.close()
+
+
 def xlate_bin():
     return os.path.join(WORK, 'xlate-target', 'release', 'xlate')
 
@@ -207,8 +219,9 @@ def deps_of(d):
 
 def cargo_check(ws, spans):
     """-> ({name: [messages]}, [unattributed])"""
-    p = run(['cargo', 'check', '--offline', '--lib', '--message-format=json'], cwd=ws.path('crate'),
-            env={'BITBYBIT_VERIF_DUMP_DIR': ws.path('dumps'), 'CARGO_TARGET_DIR': ws.target}, check=False, timeout=3000)
+    with cargo_lock():
+        p = run(['cargo', 'check', '--offline', '--lib', '--message-format=json'], cwd=ws.path('crate'),
+                env={'BITBYBIT_VERIF_DUMP_DIR': ws.path('dumps'), 'CARGO_TARGET_DIR': ws.target}, check=False, timeout=3000)
     errs = {}
     other = []
     for line in p.stdout.splitlines():
@@ -512,10 +525,11 @@ def build_runner(ws, todo, by_name, enums=()):
     open(ws.path('crate', 'src', 'bin', 'runner.rs'), 'w').write(runner.runner_source(todo, by_name, enums))
     env = {'BITBYBIT_VERIF_DUMP_DIR': ws.path('dumps2'), 'CARGO_TARGET_DIR': ws.target}
     os.makedirs(ws.path('dumps2'), exist_ok=True)
-    run(['cargo', 'build', '--offline', '--bin', 'runner'], cwd=ws.path('crate'), env=env, timeout=3000)
-    run(['cargo', 'build', '--offline', '--release', '--bin', 'runner'], cwd=ws.path('crate'), env=env, timeout=3000)
-    shutil.copy(os.path.join(ws.target, 'debug', 'runner'), ws.path('runner-dev'))
-    shutil.copy(os.path.join(ws.target, 'release', 'runner'), ws.path('runner-release'))
+    with cargo_lock():
+        run(['cargo', 'build', '--offline', '--bin', 'runner'], cwd=ws.path('crate'), env=env, timeout=3000)
+        run(['cargo', 'build', '--offline', '--release', '--bin', 'runner'], cwd=ws.path('crate'), env=env, timeout=3000)
+        shutil.copy(os.path.join(ws.target, 'debug', 'runner'), ws.path('runner-dev'))
+        shutil.copy(os.path.join(ws.target, 'release', 'runner'), ws.path('runner-release'))
 
 
 def behaviour_compare(ws, todo, allcases, by_name, xl, subdir, max_mism=200):
